@@ -485,29 +485,46 @@ func CheckC16(run *ev.Run) {
 			var doc interface{}
 			_ = json.Unmarshal(rec.JSON, &doc)
 			vres := validate.NewSchemaValidator(&sch, &sdoc, "", strfmt.Default).Validate(doc)
-			if vres != nil && len(vres.Errors) > 0 {
-				msg := vres.Errors[0].Error()
-				if strings.Contains(msg, `must be of type byte: ""`) {
-					st["oracle-gap(empty base64 string refused by strfmt)"]++
-					continue
+			rejected := map[string]string{}
+			if vres != nil {
+				for _, e := range vres.Errors { // every complaint, not only the first: a known one must not hide another
+					msg := e.Error()
+					if strings.Contains(msg, `must be of type byte: ""`) {
+						st["oracle-gap(empty base64 string refused by strfmt)"]++
+						continue
+					}
+					key := "encoding-not-accepted"
+					switch {
+					case strings.Contains(msg, "null") || strings.Contains(msg, "is required"):
+						key = "null-for-nil-pointer-slice-or-map"
+					case strings.Contains(msg, "must be of type array: \"string\""):
+						key = "bytes-scanned-as-array-of-integers"
+					case strings.Contains(msg, "must be of type string"):
+						key = "declared-string-but-sent-otherwise"
+					}
+					if _, ok := rejected[key]; !ok {
+						rejected[key] = msg
+					}
 				}
-				key := "encoding-not-accepted"
-				switch {
-				case strings.Contains(msg, "null") || strings.Contains(msg, "is required"):
-					key = "null-for-nil-pointer-slice-or-map"
-				case strings.Contains(msg, "must be of type array: \"string\""):
-					key = "bytes-scanned-as-array-of-integers"
-				case strings.Contains(msg, "must be of type string"):
-					key = "string-option-on-a-type-that-ignores-it"
-				}
+			}
+			for key, msg := range rejected {
 				st["REJECTED:"+key]++
 				rp := map[string]interface{}{"model": rec.Type, "document": rec.JSON, "validator": msg, "definition": sdefs[rec.Type]}
 				for k, v := range replay {
 					rp[k] = v
 				}
 				run.Deviation(key, fmt.Sprintf("a value of %s marshals to a document its scanned definition rejects: %s", rec.Type, msg), rp)
-			} else {
+			}
+			if len(rejected) == 0 {
 				st["encoding-accepted"]++
+			}
+			if tm := typeMismatches(doc, sdefs[rec.Type], sdefs, "", 0); len(tm) > 0 {
+				st["JSON-TYPE-DIFFERS"]++
+				rp := map[string]interface{}{"model": rec.Type, "document": rec.JSON, "mismatches": tm, "definition": sdefs[rec.Type]}
+				for k, v := range replay {
+					rp[k] = v
+				}
+				run.Deviation("json-type-differs", fmt.Sprintf("a value of %s marshals with a JSON type other than the one its scanned definition declares: %v", rec.Type, clipList(tm, 4)), rp)
 			}
 			if und := undeclaredMembers(doc, sdefs[rec.Type], sdefs, "", 0); len(und) > 0 {
 				st["MEMBER-NOT-DECLARED"]++
@@ -594,4 +611,52 @@ func undeclaredMembers(doc interface{}, schema interface{}, defs map[string]inte
 		return out
 	}
 	return nil
+}
+
+// typeMismatches lists the places where the JSON type of a (non-null) value is not the declared `type` of its schema
+// (the reference validator does not report this for string schemas that carry a format).
+func typeMismatches(doc interface{}, schema interface{}, defs map[string]interface{}, path string, depth int) []string {
+	sm, ok := schema.(map[string]interface{})
+	if !ok || depth > 14 || doc == nil {
+		return nil
+	}
+	if ref, ok := sm["$ref"].(string); ok {
+		return typeMismatches(doc, defs[strings.TrimPrefix(ref, "#/definitions/")], defs, path, depth+1)
+	}
+	var out []string
+	if t, ok := sm["type"].(string); ok {
+		got := ""
+		switch doc.(type) {
+		case string:
+			got = "string"
+		case float64:
+			got = "number"
+		case bool:
+			got = "boolean"
+		case []interface{}:
+			got = "array"
+		case map[string]interface{}:
+			got = "object"
+		}
+		if got != t && !(t == "integer" && got == "number") {
+			out = append(out, fmt.Sprintf("%s: declared %s, sent %s", path, t, got))
+			return out
+		}
+	}
+	switch d := doc.(type) {
+	case []interface{}:
+		for i, e := range d {
+			out = append(out, typeMismatches(e, sm["items"], defs, fmt.Sprintf("%s[%d]", path, i), depth+1)...)
+		}
+	case map[string]interface{}:
+		props, _ := sm["properties"].(map[string]interface{})
+		for k, v := range d {
+			if ps, ok := props[k]; ok {
+				out = append(out, typeMismatches(v, ps, defs, path+"."+k, depth+1)...)
+			} else if ap, ok := sm["additionalProperties"]; ok {
+				out = append(out, typeMismatches(v, ap, defs, path+"."+k, depth+1)...)
+			}
+		}
+	}
+	return out
 }
